@@ -27,6 +27,33 @@ theorem const_interval_pos : 0 < Gen.idleCleanupIntervalNs := by decide
 /-- the value the property text quotes: one second -/
 theorem const_interval : Gen.idleCleanupIntervalNs = 1000000000 := by decide
 
+/-! ### the skeleton of udp.go the model's atomic steps were written from (regenerated from the source)
+
+  Source-order lock/unlock calls, go statements, calls, returns, branch conditions and writes of the
+  guarded fields of each concurrent function.  How they map to labels is in the header of
+  Hy.Model.UdpSession: e.g. `CloseWithErr` = [Lock; closed test; closed := true; Close; Unlock] (`closeA`)
+  then `ExitFunc` (`exitB`); `initConn` holds connLock across the closed test, the dial and `go receiveLoop`
+  (`feedA`), and on a failed dial unlocks BEFORE calling CloseWithErr (`rlCloseA` is a separate step).
+  A test dropped from a lock region, a call moved across an unlock, a changed sweep condition or a
+  different id in the upstream message changes these strings and the obligation fails here. -/
+
+theorem skeleton_CloseWithErr : Gen.udpSkel_CloseWithErr =
+    "e.connLock.Lock if(e.closed){ e.connLock.Unlock ret } set(e.closed) if(e.conn!=nil){ e.conn.Close } e.connLock.Unlock e.ExitFunc" := rfl
+theorem skeleton_initConn : Gen.udpSkel_initConn =
+    "e.connLock.Lock if(e.closed){ e.connLock.Unlock ret } e.DialFunc if(err!=nil){ e.connLock.Unlock e.CloseWithErr ret } set(e.conn) if(firstMsg.Addr!=actualAddr){ set(e.OverrideAddr) set(e.OriginalAddr) } go(e.receiveLoop) e.connLock.Unlock ret" := rfl
+theorem skeleton_receiveLoop : Gen.udpSkel_receiveLoop =
+    "for{ e.conn.ReadFrom if(err!=nil){ e.CloseWithErr ret } e.Last.Set if(e.OriginalAddr!=\"\"){ } msg{SessionID:e.ID,Addr:rAddr} sendMessageAutoFrag if(err!=nil){ e.CloseWithErr ret } }" := rfl
+theorem skeleton_Run : Gen.udpSkel_Run =
+    "go(m.idleCleanupLoop) defer(close) defer(m.cleanup) for{ m.io.ReceiveMessage if(err!=nil){ ret } m.feed }" := rfl
+theorem skeleton_idleCleanupLoop : Gen.udpSkel_idleCleanupLoop =
+    "time.NewTicker defer(ticker.Stop) for{ select{ case(<-ticker.C): m.cleanup case(<-stopCh): ret } }" := rfl
+theorem skeleton_cleanup : Gen.udpSkel_cleanup =
+    "m.mutex.RLock range(m.m){ if(!idleOnly||now.Sub(entry.Last.Get())>m.idleTimeout){ } } m.mutex.RUnlock range(timeoutEntry){ entry.CloseWithErr }" := rfl
+theorem skeleton_feed : Gen.udpSkel_feed =
+    "m.mutex.RLock m.mutex.RUnlock if(entry==nil){ func{ m.io.Hook if(err!=nil){ ret } m.eventLogger.New m.io.UDP ret } func{ m.eventLogger.Close m.mutex.Lock delete(m.m,entry.ID) m.mutex.Unlock } newUDPSessionEntry m.mutex.Lock set(m.m[msg.SessionID]) m.mutex.Unlock } entry.Feed" := rfl
+theorem skeleton_Count : Gen.udpSkel_Count =
+    "m.mutex.RLock defer(m.mutex.RUnlock) ret" := rfl
+
 abbrev reach (c : Cfg) (sched : List Label) : St := run c {} sched
 
 theorem reach_inv (c : Cfg) (sched : List Label) : Inv (reach c sched) := inv_run c sched {} inv_init
